@@ -4,7 +4,7 @@ from . import common as c
 
 ATOMS = ["/", "/", "/", "\\", "\\", "\t", "\n", "\r", " ", ".", "..", "./", "../", "%2f", "%5c", "%2F", "%5C",
          "%00", "%zz", "%", "?", "#", "@", ":", "evil.example", "profile", "idp/oauth2/authorize",
-         "x=y", "&", "https:", "http:", "javascript:", "a", "b", "\x00", "\x0b", "\x7f", "\x85", "é",
+         "x=y", "&", "?user=x", "user=y", "https:", "http:", "javascript:", "a", "b", "\x00", "\x0b", "\x7f", "\x85", "é",
          " ", "。", "／", "＼", "//", "/\\", "\\/", "/./", "/../", ";", "'", "\"", "<", ">"]
 SEEDS = ["", "/", "//", "/profile/", "/\\evil.example", "/\t/evil.example", "/\n/evil.example",
          "/./\\evil.example", "/.//evil.example", "/../\\evil.example", "/a/..//evil.example",
@@ -15,7 +15,10 @@ SEEDS = ["", "/", "//", "/profile/", "/\\evil.example", "/\t/evil.example", "/\n
          "/%zz/../\\evil", "/a%", "/./", "/..", "/.", "/a/b/../../..//x", "/a?b/../\\c", "/a#/../\\c",
          "/&#92;evil.example/", "/&bsol;evil.example", "/&#47;evil.example/", "/&sol;/evil.example", "/&Tab;/evil.example",
          "/&#13;/evil.example", "/%5cevil.example", "/%2fevil.example", "/%255cevil.example", "/\\u005cevil.example",
-         "/x?a=1&amp;b=2", "/&amp;#92;evil.example"]
+         "/x?a=1&amp;b=2", "/&amp;#92;evil.example",
+         # a `user=` hint (the CLI's /showAuthToken?user=<local user> links carry one) behind an encoded slash
+         "/%2Fevil.example/?user=localuser", "/%2fevil.example?user=a", "/showAuthToken?user=bob", "/%2F%2Fevil.example/?user=x&y=1",
+         "/x/..%2F..%2F/evil.example?user=a"]
 
 
 def gen(rng, n):
@@ -37,38 +40,53 @@ def run(ctx):
     if ctx.replay:
         rp = json.load(open(ctx.replay))
         dests = [v["replay"]["dest"] for v in rp.get("violations", []) if "dest" in v.get("replay", {})] or dests[:50]
-    ops = ["dest %s -" % c.hexs(d) for d in dests]
+    # carriers other than the form field: the same strings as the path of a same-host Referer, with no
+    # login_destination field at all (the handlers must then fall back to the profile page)
+    carriers = ["-"] * len(dests)
+    extra = list(SEEDS) + [d for d in dests[len(SEEDS):] if ctx.rng.random() < 0.12]
+    for d in extra:
+        for cr in ("ref", "ref2"):
+            dests.append(d)
+            carriers.append(cr)
+    ops = ["dest %s %s" % (c.hexs(d), cr) for d, cr in zip(dests, carriers)]
     impl, log, rc = c.run_harness(ctx, "cmd/keymasterd", "C17", ops)
     if rc != 0 or len(impl) != len(ops):
         ctx.broken.append("harness TestVerifC17 did not complete (exit %d, %d/%d lines)" % (rc, len(impl), len(ops)))
         return c.finish(ctx)
     # model on the same destinations, with url.Parse's answer as observed
     mops, locs, owners = [], [], []
-    for d, line in zip(dests, impl):
+    for d, cr, line in zip(dests, carriers, impl):
         f = line.split()
-        mops.append("dest %s %s" % (c.hexs(d), f[2]))
+        # a destination that is not in the login_destination field is no destination: the model sees the empty string
+        mops.append("dest %s %s" % (c.hexs(d if cr == "-" else ""), f[2]))
         for kv in [("direct=" + f[1])] + f[4:]:
             name, val = kv.split("=", 1)
             locs.append(val)
-            owners.append((d, name))
+            owners.append((d, name, cr))
     model = c.run_driver(ctx, "model", mops)
     c.diff_streams(ctx, "getLoginDestination+http.Redirect vs KM.LoginDest.filter/location", mops,
                    [" ".join(l.split()[:2]) for l in impl], model)
     # judge every Location the implementation emitted
     jops, jown = [], []
-    for (d, name), v in zip(owners, locs):
+    refused = 0
+    for (d, name, cr), v in zip(owners, locs):
+        if cr != "-" and v.startswith("STATUS"):
+            refused += 1          # a Referer that does not parse or names another host gets the request refused (CSRF test): no redirect at all
+            continue
         if v.startswith("STATUS") or v == "PANIC":
-            ctx.broken.append("handler %s answered %s for destination %r" % (name, v, d))
+            ctx.broken.append("handler %s answered %s for destination %r (carrier %s)" % (name, v, d, cr))
             continue
         jops.append("loc " + v)
-        jown.append((d, name, v))
+        jown.append((d, name, v, cr))
     verdicts = c.run_driver(ctx, "judge", jops)
     nviol = 0
-    for (d, name, v), verdict in zip(jown, verdicts):
+    for (d, name, v, cr), verdict in zip(jown, verdicts):
         if verdict != "ok":
             nviol += 1
-            c.add_violation(ctx, "dest=%s" % json.dumps(d), "handler %s emitted Location %r: %s" % (
-                name, c.unhexs(v), verdict), {"dest": d, "handler": name, "location": c.unhexs(v), "judge": verdict})
+            how = {"-": "", "ref": " (no login_destination field; the string is the path of a Referer naming the server's own host)",
+                   "ref2": " (no login_destination field; the string is the path of a scheme-relative Referer naming the server's own host)"}[cr]
+            c.add_violation(ctx, "dest=%s" % json.dumps(d), "handler %s emitted Location %r: %s%s" % (
+                name, c.unhexs(v), verdict, how), {"dest": d, "carrier": cr, "handler": name, "location": c.unhexs(v), "judge": verdict})
     # handler Locations must equal what the direct call produced
     for d, line in zip(dests, impl):
         f = line.split()
@@ -81,7 +99,8 @@ def run(ctx):
     ctx.coverage.update({
         "evaluations": len(dests), "locations_judged": len(jops),
         "distinct_nontrivial": len(set(d for d, l in zip(dests, impl) if l.split()[0] == c.hexs(d) and d)),
-        "rule": "destination strings from an adversarial atom grammar + fixed corpus; non-trivial = distinct strings that pass the filter (are used verbatim as redirect target)",
+        "carriers": {k: carriers.count(k) for k in ("-", "ref", "ref2")}, "referer_requests_refused_outright": refused,
+        "rule": "destination strings from an adversarial atom grammar + fixed corpus, carried in the login_destination field or as the path of a same-host Referer; non-trivial = distinct strings that pass the filter (are used verbatim as redirect target)",
         "passed_filter": kept, "fell_back_to_profile": len(dests) - kept, "changed_by_http_redirect": cleaned,
         "url_parse_rejected": sum(1 for l in impl if l.split()[2] == "0"),
         "redirect_sites": facts.get("redirect_sites"),
